@@ -268,6 +268,86 @@ theorem two_period_filter_is_conditioning_partial {p : ℕ → Type} [∀ t, Fin
   rw [(model_update_is_conditioning I hI 1).1, hmean, hcross, hpe]
   exact sequential_eq_joint_mean S01 S10 S00i (I.Fi 1) μ1 Sx0 Sx1 d0 d1
 
+/-! ### fixed unknown initial condition (`estimate_unknown_init`, `correct_for_unknown_init`)
+
+The code runs the filter from the initial mean with the unit-root block at zero, records `Xi_t` (`all_Xi`: `Xi_0 = T Xi_init`,
+`Xi_t = (T − T G_{t-1} Z_{t-1}) Xi_{t-1}`), estimates `δ` by GLS and then corrects the cache: `a0_t += Xi_t δ`, `y0_t += Z_t Xi_t δ`,
+`pe_t −= Z_t Xi_t δ`.  The theorem says that this correction, applied in EVERY period `t` (also after the last observation, and
+whether or not the prediction step is stored), yields exactly the cache of the filter run from the shifted initial mean
+`aInit + x` (`x = Xi_init δ`), with unchanged MSEs and gains.  Hence every theorem about `Inputs` (conditioning above, the
+smoother identities of Props/C08.lean) applies to the corrected run. -/
+
+/-- the run from the shifted initial mean -/
+def shiftInit {p : ℕ → Type} (I : Inputs n q w k p K) (x : Matrix n k K) : Inputs n q w k p K :=
+  { I with aInit := I.aInit + x }
+
+/-- shift of the state handed to period `t` -/
+def shiftPath {p : ℕ → Type} [∀ t, Fintype (p t)] [∀ t, DecidableEq (p t)] (I : Inputs n q w k p K) (x : Matrix n k K) :
+    ℕ → Matrix n k K
+  | 0 => x
+  | t + 1 => I.T * shiftPath I x t - I.G t * (I.Z t * (I.T * shiftPath I x t))
+
+/-- `all_Xi[t] @ delta` of the code, as a recursion on the impact on `a0_t` -/
+def xiPath {p : ℕ → Type} [∀ t, Fintype (p t)] [∀ t, DecidableEq (p t)] (I : Inputs n q w k p K) (x : Matrix n k K) :
+    ℕ → Matrix n k K
+  | 0 => I.T * x
+  | t + 1 => (I.T - I.T * I.G t * I.Z t) * xiPath I x t
+
+section unknownInit
+variable {p : ℕ → Type} [∀ t, Fintype (p t)] [∀ t, DecidableEq (p t)] (I : Inputs n q w k p K) (x : Matrix n k K)
+
+theorem xiPath_eq (t : ℕ) : xiPath I x t = I.T * shiftPath I x t := by
+  induction t with
+  | zero => rfl
+  | succ t ih =>
+    show (I.T - I.T * I.G t * I.Z t) * xiPath I x t = I.T * (I.T * shiftPath I x t - I.G t * (I.Z t * (I.T * shiftPath I x t)))
+    rw [ih]
+    simp only [Matrix.sub_mul, Matrix.mul_sub, Matrix.mul_assoc]
+
+theorem shift_state (t : ℕ) :
+    ((shiftInit I x).state t).2 = (I.state t).2 ∧ ((shiftInit I x).state t).1 = (I.state t).1 + shiftPath I x t := by
+  induction t with
+  | zero => exact ⟨rfl, rfl⟩
+  | succ t ih =>
+    constructor
+    · show I.Q1f t ((shiftInit I x).state t).2 = I.Q1f t (I.state t).2
+      rw [ih.1]
+    · show I.a0f t ((shiftInit I x).state t).1 + I.Gf t ((shiftInit I x).state t).2 * I.pef t ((shiftInit I x).state t).1
+          = I.a0f t (I.state t).1 + I.Gf t (I.state t).2 * I.pef t (I.state t).1
+            + (I.T * shiftPath I x t - I.G t * (I.Z t * (I.T * shiftPath I x t)))
+      rw [ih.1, ih.2]
+      show I.T * ((I.state t).1 + shiftPath I x t) + I.Kc + I.P * I.u0 t
+          + I.Gf t (I.state t).2 * (I.y t - (I.Z t * (I.T * ((I.state t).1 + shiftPath I x t) + I.Kc + I.P * I.u0 t) + I.D t + I.H t * I.w0 t))
+        = I.T * (I.state t).1 + I.Kc + I.P * I.u0 t
+          + I.Gf t (I.state t).2 * (I.y t - (I.Z t * (I.T * (I.state t).1 + I.Kc + I.P * I.u0 t) + I.D t + I.H t * I.w0 t))
+          + (I.T * shiftPath I x t - I.Gf t (I.state t).2 * (I.Z t * (I.T * shiftPath I x t)))
+      simp only [Matrix.mul_add, Matrix.mul_sub, Matrix.add_mul]
+      abel
+
+/-- **`correct_for_unknown_init` = the run from the shifted initial mean**, for every period `t` (no restriction to the periods
+up to the last observation), any missing-data pattern: same `Q0 Q1 F G`; `a0_t + Xi_t δ`, `y0_t + Z_t Xi_t δ`, `pe_t − Z_t Xi_t δ`. -/
+theorem unknown_init_correction_is_shifted_run (t : ℕ) :
+    (shiftInit I x).Q0 t = I.Q0 t ∧ (shiftInit I x).Q1 t = I.Q1 t ∧ (shiftInit I x).G t = I.G t
+    ∧ (shiftInit I x).a0 t = I.a0 t + xiPath I x t
+    ∧ (shiftInit I x).y0 t = I.y0 t + I.Z t * xiPath I x t
+    ∧ (shiftInit I x).pe t = I.pe t - I.Z t * xiPath I x t := by
+  have h := shift_state I x t
+  have ha0 : (shiftInit I x).a0 t = I.a0 t + xiPath I x t := by
+    show I.T * ((shiftInit I x).state t).1 + I.Kc + I.P * I.u0 t = I.T * (I.state t).1 + I.Kc + I.P * I.u0 t + xiPath I x t
+    rw [h.2, xiPath_eq, Matrix.mul_add]; abel
+  have hy0 : (shiftInit I x).y0 t = I.y0 t + I.Z t * xiPath I x t := by
+    show I.Z t * (shiftInit I x).a0 t + I.D t + I.H t * I.w0 t = I.Z t * I.a0 t + I.D t + I.H t * I.w0 t + I.Z t * xiPath I x t
+    rw [ha0, Matrix.mul_add]; abel
+  refine ⟨?_, (shift_state I x (t + 1)).1, ?_, ha0, hy0, ?_⟩
+  · show I.Q0f t ((shiftInit I x).state t).2 = I.Q0f t (I.state t).2
+    rw [h.1]
+  · show I.Gf t ((shiftInit I x).state t).2 = I.Gf t (I.state t).2
+    rw [h.1]
+  · show I.y t - (shiftInit I x).y0 t = I.y t - I.y0 t - I.Z t * xiPath I x t
+    rw [hy0]; abel
+
+end unknownInit
+
 /-! ### non-vacuity -/
 
 /-- the hypotheses of the Schur lemmas are met by a concrete 1+1 block covariance `((2,1),(1,1))` over ℚ -/
